@@ -314,12 +314,16 @@ void HistSim::opFill(const Op& op, size_t ix) {
         std::string sv = "s" + std::to_string(q % 7);
         r = dst.add(sv);
         nv = Val::str(sv);
+      } else if (kind == "same") {
+        std::string sv = "the same copied string";
+        r = dst.add(sv);
+        nv = Val::str(sv);
       } else {
         r = dst.add(int(q));
         nv = Val::integer(int64_t(q));
       }
       if (r) {
-        if (failedOnce && kind != "str" && opt.mode != "fault")
+        if (failedOnce && kind != "str" && kind != "same" && opt.mode != "fault")
           violate("C19:limit-not-monotonic", "an add() succeeded after an earlier one had failed at the limit");
         nv.id = newId();
         node->a.push_back(nv);
@@ -355,7 +359,8 @@ void HistSim::opFill(const Op& op, size_t ix) {
     for (size_t q = 0; q < n; q++) {
       Val nv = kind == "big" ? Val::integer(int64_t(0x100000000ll) + int64_t(q))
                : kind == "str" ? Val::str("s" + std::to_string(q % 7))
-                               : Val::integer(int64_t(q));
+               : kind == "same" ? Val::str("the same copied string")
+                                : Val::integer(int64_t(q));
       nv.id = newId();
       node->a.push_back(nv);
     }
@@ -881,10 +886,28 @@ Plan generate(const std::string& mode, uint64_t seed, uint64_t run) {
     p.ops.push_back(prep);
     sim.step(prep, 0);
     Op fill = mkop("fill");
-    fill.setu("h", 0).setu("n", 0).set("kind", kind);  // n=0: "as many as the slot space holds, plus a few"
-    fill.set("extra", r.range(0, 5));
-    p.ops.push_back(fill);
-    nops = size_t(r.range(3, 20));
+    if (r.chance(1, 4)) {
+      // more users of one copied string than an 8- or 16-bit counter can hold, then one user less:
+      // reference counts must not wrap (they are as wide as slot ids)
+      static const uint64_t counts[] = {256, 257, 258, 513, 65536, 65537, 65538};
+      uint64_t n = counts[r.below(r.chance(1, 6) ? 7 : 4)];
+      fill.setu("h", 0).setu("n", n).set("kind", "same");
+      p.ops.push_back(fill);
+      Op rem = mkop("rem");
+      rem.setu("h", 0).set("s", "i" + std::to_string(r.below(3))).set("via", 0);
+      p.ops.push_back(rem);
+      if (r.chance(1, 2)) {
+        Op add = mkop("add");
+        add.setu("h", 0).set("v", "s\"another string of similar size\"").set("via", 0);
+        p.ops.push_back(add);
+      }
+      nops = size_t(r.range(1, 8));
+    } else {
+      fill.setu("h", 0).setu("n", 0).set("kind", kind);  // n=0: "as many as the slot space holds, plus a few"
+      fill.set("extra", r.range(0, 5));
+      p.ops.push_back(fill);
+      nops = size_t(r.range(3, 20));
+    }
   }
   for (size_t i = 0; i < nops; i++) {
     Op op = g.next();
